@@ -426,6 +426,77 @@ Proof.
   now rewrite Hu.
 Qed.
 
+(* ---- coverage round: (), the tuples of arity 1, 4, 5, 6, the slice and str writers ---- *)
+Lemma rt_unit : RT write_unit read_unit (fun _ => True).
+Proof. intros [] rest _. reflexivity. Qed.
+
+Lemma rt_tup1 {A} wa (ra : Rd A) wfa : RT wa ra wfa -> RT (write_tup1 wa) (read_tup1 ra) wfa.
+Proof. intros Ha a rest Hwa. unfold write_tup1, read_tup1. rt_next Ha. reflexivity. Qed.
+
+Lemma rt_tup4 {A B C D} wa (ra : Rd A) wfa wb (rb : Rd B) wfb wc (rc : Rd C) wfc wd (rd : Rd D) wfd :
+  RT wa ra wfa -> RT wb rb wfb -> RT wc rc wfc -> RT wd rd wfd ->
+  RT (write_tup4 wa wb wc wd) (read_tup4 ra rb rc rd)
+     (fun t => let '(a, b, c, d) := t in wfa a /\ wfb b /\ wfc c /\ wfd d).
+Proof.
+  intros Ha Hb Hc Hd [[[a b] c] d] rest (Hwa & Hwb & Hwc & Hwd). unfold write_tup4, read_tup4.
+  rt_next Ha. rt_next Hb. rt_next Hc. rt_next Hd. reflexivity.
+Qed.
+
+Lemma rt_tup5 {A B C D E} wa (ra : Rd A) wfa wb (rb : Rd B) wfb wc (rc : Rd C) wfc wd (rd : Rd D) wfd
+    we (re : Rd E) wfe :
+  RT wa ra wfa -> RT wb rb wfb -> RT wc rc wfc -> RT wd rd wfd -> RT we re wfe ->
+  RT (write_tup5 wa wb wc wd we) (read_tup5 ra rb rc rd re)
+     (fun t => let '(a, b, c, d, e) := t in wfa a /\ wfb b /\ wfc c /\ wfd d /\ wfe e).
+Proof.
+  intros Ha Hb Hc Hd He [[[[a b] c] d] e] rest (Hwa & Hwb & Hwc & Hwd & Hwe). unfold write_tup5, read_tup5.
+  rt_next Ha. rt_next Hb. rt_next Hc. rt_next Hd. rt_next He. reflexivity.
+Qed.
+
+Lemma rt_tup6 {A B C D E F} wa (ra : Rd A) wfa wb (rb : Rd B) wfb wc (rc : Rd C) wfc wd (rd : Rd D) wfd
+    we (re : Rd E) wfe wf_ (rf : Rd F) wff :
+  RT wa ra wfa -> RT wb rb wfb -> RT wc rc wfc -> RT wd rd wfd -> RT we re wfe -> RT wf_ rf wff ->
+  RT (write_tup6 wa wb wc wd we wf_) (read_tup6 ra rb rc rd re rf)
+     (fun t => let '(a, b, c, d, e, f) := t in wfa a /\ wfb b /\ wfc c /\ wfd d /\ wfe e /\ wff f).
+Proof.
+  intros Ha Hb Hc Hd He Hf [[[[[a b] c] d] e] f] rest (Hwa & Hwb & Hwc & Hwd & Hwe & Hwf).
+  unfold write_tup6, read_tup6.
+  rt_next Ha. rt_next Hb. rt_next Hc. rt_next Hd. rt_next He. rt_next Hf. reflexivity.
+Qed.
+
+Lemma rt_tup6_ints a b c d e f rest :
+  0 <= b < 2 ^ 16 -> 0 <= c < 2 ^ 32 -> 0 <= d < 2 ^ 64 -> 0 <= e < 2 ^ 128 -> 0 <= f < 2 ^ 64 ->
+  read_tup6 read_u8 read_u16 read_u32 read_u64 read_u128 read_usize
+    (write_tup6 write_u8 write_u16 write_u32 write_u64 write_u128 write_usize (a, b, c, d, e, f) ++ rest)
+  = Ok ((a, b, c, d, e, f), rest).
+Proof.
+  intros Hb Hc Hd He Hf.
+  apply (rt_tup6 _ _ _ _ _ _ _ _ _ _ _ _ _ _ _ _ _ _ rt_u8 rt_u16 rt_u32 rt_u64 rt_u128 rt_usize (a, b, c, d, e, f) rest).
+  cbv beta iota. tauto.
+Qed.
+
+(* the element-by-element loop of `impl Serializable for [T]` writes what write_many writes *)
+Lemma fold_left_append {A} (w : A -> bytes) l acc :
+  fold_left (fun target e => target ++ w e) l acc = acc ++ write_many w l.
+Proof.
+  revert acc. induction l as [|a l IH]; intros acc; cbn [fold_left].
+  - unfold write_many. cbn [flat_map]. now rewrite app_nil_r.
+  - rewrite IH, write_many_cons, app_assoc. reflexivity.
+Qed.
+
+Lemma write_slice_is_write_vec {A} (w : A -> bytes) l : write_slice w l = write_vec w l.
+Proof. unfold write_slice, write_vec. apply fold_left_append. Qed.
+
+Lemma rt_slice {A} (w : A -> bytes) (r : Rd A) wf :
+  RT w r wf -> RT (write_slice w) (read_vec_of r) (fun l => Z.of_nat (length l) < 2 ^ 64 /\ Forall wf l).
+Proof. intros H l rest Hwf. rewrite write_slice_is_write_vec. now apply (rt_vec w r wf H). Qed.
+
+Lemma write_str_is_write_string s : write_str s = write_string s.
+Proof. reflexivity. Qed.
+
+Lemma rt_str (utf8_valid : bytes -> bool) :
+  RT write_str (read_string utf8_valid) (fun s => len s < 2 ^ 64 /\ utf8_valid s = true).
+Proof. intros s rest Hwf. rewrite write_str_is_write_string. now apply rt_string. Qed.
+
 (* blobs with a k-byte length prefix *)
 Lemma rt_blob k : RT (write_blob k) (read_blob k) (fun b => len b < 256 ^ Z.of_nat k).
 Proof.
